@@ -139,3 +139,22 @@ Definition spt_run (guard : bool) (o : oracle) (t : topology) (from : node) : ou
 (* NewTopology(nodes, edges).SPT(from) *)
 Definition run (guard : bool) (o : oracle) (nodes : list node) (edges : list edge) (from : node) : outcome :=
   spt_run guard o (new_topology nodes edges) from.
+
+(* ---- several SPT calls on ONE Topology object.
+   t.SPT(from) returns the tree; the Topology it leaves behind is part of the model's result so that
+   a later call sees it.  In the code as it is SPT writes neither t.nodes nor t.edges (reading
+   t.edges[from] for a missing key does not insert), so the topology is handed on unchanged. *)
+Definition spt (guard : bool) (o : oracle) (t : topology) (from : node) : topology * outcome :=
+  (t, spt_run guard o t from).
+
+(* calls = the sources of successive t.SPT(..) calls, each with the map order it happens to see *)
+Fixpoint spt_seq (guard : bool) (t : topology) (calls : list (oracle * node)) : list outcome :=
+  match calls with
+  | [] => []
+  | (o, from) :: rest => let '(t', out) := spt guard o t from in out :: spt_seq guard t' rest
+  end.
+
+(* t := NewTopology(nodes, edges); t.SPT(s1); t.SPT(s2); ... *)
+Definition run_seq (guard : bool) (nodes : list node) (edges : list edge) (calls : list (oracle * node))
+  : list outcome :=
+  spt_seq guard (new_topology nodes edges) calls.
